@@ -233,7 +233,7 @@ func init() {
 		Rule: "13 RPC client form/method cells x 4 target protocols x 2 codec relations (pass-through pairs excluded), crossed with every combination up to D of: up to 2 request headers, 2 response headers and 2 trailers " +
 			"(6 names incl. -Bin and protocol-prefixed ones x 6 values: single, repeated, empty, with separators, unpadded base64), trailer declaration style (TrailerPrefix, Trailer header, Trailer header in lower case), success / error, trailers-only. " +
 			"Non-trivial = distinct scenario with at least one application key on each of request, response and trailers.",
-		Assume:      []string{"REST clients are outside the property's quantifier; REST backends have no trailers", "names that are ambiguous in the client's protocol (a response header literally called Trailer-X) are not in the alphabet"},
+		Assume:      []string{"REST clients are outside the property's quantifier; REST backends have no trailers", "names that are ambiguous in the client's protocol (a response header literally called Trailer-X) are not in the alphabet", "names that are control headers of ANY of the four protocols (Grpc-Encoding, Connect-Accept-Encoding, ...) are not used as application metadata, even toward peers whose protocol does not own them"},
 		Scenarios:   []Scenario{{Name: "metadata", Fn: scn, QuickBound: 3, ThoroughBound: 5}},
 		MinOutcomes: 8,
 	})
